@@ -16,7 +16,8 @@ open TdModel.C35
 
 /-- One state-changing call a parser can make on `entity.Builder` / `entity.Token`. -/
 inductive Call where
-  | write (s : List Char)                  -- Write, WriteString, WriteRune, WriteByte(ASCII)
+  | write (s : List Char)                  -- Write, WriteString, WriteByte(ASCII)
+  | writeRune (r : Int)                    -- WriteRune (any rune value)
   | plain (s : List Char)                  -- Plain
   | format (s : List Char) (fs : List Fmt) -- Format and the generated Bold(s), Italic(s), …
   | token                                  -- Token
@@ -26,6 +27,7 @@ inductive Call where
 
 def toOp : Call → Op
   | .write s => .write s
+  | .writeRune r => .writeRune r
   | .plain s => .plain s
   | .format s fs => .format s fs
   | .token => .token
